@@ -54,6 +54,14 @@ type kvElection struct {
 
 	wg sync.WaitGroup
 
+	// lifecycle (capacity 1) serialises Start with the part of
+	// Stop/StopWithContext that waits for the background goroutines: wg.Add
+	// (Start) must not run concurrently with wg.Wait (a stop call in progress on
+	// another goroutine). It is held across that wait, which can take seconds,
+	// so it is a channel semaphore rather than a mutex; it is never held while
+	// a user callback runs.
+	lifecycle chan struct{}
+
 	// ctxVal holds the election context (a ctxBox). It is written by Start and
 	// StopWithContext and read by every background goroutine, also for logging,
 	// without the election mutex: hence an atomic value and not a plain field.
@@ -113,10 +121,11 @@ func newKVElection(nc JetStreamProvider, cfg ElectionConfig) (*kvElection, error
 	}
 
 	e := &kvElection{
-		cfg: cfg,
-		nc:  nc,
-		kv:  kv,
-		key: cfg.Group,
+		cfg:       cfg,
+		nc:        nc,
+		kv:        kv,
+		key:       cfg.Group,
+		lifecycle: make(chan struct{}, 1),
 	}
 
 	e.isLeader.Store(false)
@@ -208,6 +217,9 @@ func (e *kvElection) recordLeaderDuration() {
 }
 
 func (e *kvElection) Start(ctx context.Context) error {
+	e.lifecycle <- struct{}{}
+	defer func() { <-e.lifecycle }()
+
 	e.mu.Lock()
 	defer e.mu.Unlock()
 
@@ -671,10 +683,12 @@ func (e *kvElection) becomeFollowerLocked() bool {
 }
 
 func (e *kvElection) Stop() error {
+	e.lifecycle <- struct{}{}
 	e.mu.Lock()
 
 	if e.context() == nil {
 		e.mu.Unlock()
+		<-e.lifecycle
 		return ErrAlreadyStopped
 	}
 
@@ -736,6 +750,7 @@ func (e *kvElection) Stop() error {
 	case <-done:
 	case <-time.After(5 * time.Second):
 	}
+	<-e.lifecycle
 
 	if wasLeader && onDemote != nil {
 		log.Info("leader_demoted",
@@ -750,10 +765,33 @@ func (e *kvElection) Stop() error {
 }
 
 func (e *kvElection) StopWithContext(ctx context.Context, opts StopOptions) error {
+	timeout := opts.Timeout
+	if timeout == 0 {
+		deadline, ok := ctx.Deadline()
+		if ok {
+			timeout = time.Until(deadline)
+		} else {
+			timeout = 5 * time.Second
+		}
+	}
+
+	// The time-out bounds the whole call: waiting for another Start/Stop call in
+	// progress, for the background goroutines, deleting the key and waiting for
+	// the OnDemote callback share one deadline.
+	deadline := time.Now().Add(timeout)
+
+	select {
+	case e.lifecycle <- struct{}{}:
+	case <-time.After(timeout):
+		return fmt.Errorf("shutdown timeout exceeded: %v", timeout)
+	case <-ctx.Done():
+		return ctx.Err()
+	}
 	e.mu.Lock()
 
 	if e.context() == nil {
 		e.mu.Unlock()
+		<-e.lifecycle
 		return ErrAlreadyStopped
 	}
 
@@ -797,20 +835,6 @@ func (e *kvElection) StopWithContext(ctx context.Context, opts StopOptions) erro
 		_ = e.connectionMonitor.Stop()
 	}
 
-	timeout := opts.Timeout
-	if timeout == 0 {
-		deadline, ok := ctx.Deadline()
-		if ok {
-			timeout = time.Until(deadline)
-		} else {
-			timeout = 5 * time.Second
-		}
-	}
-
-	// The time-out bounds the whole call: waiting for the background goroutines,
-	// deleting the key and waiting for the OnDemote callback share one deadline.
-	deadline := time.Now().Add(timeout)
-
 	done := make(chan struct{})
 	go func() {
 		e.wg.Wait()
@@ -819,7 +843,8 @@ func (e *kvElection) StopWithContext(ctx context.Context, opts StopOptions) erro
 
 	select {
 	case <-done:
-	case <-time.After(timeout):
+	case <-time.After(time.Until(deadline)):
+		<-e.lifecycle
 		log := e.getLogger()
 		log.Warn("shutdown_timeout",
 			append(e.logWithContext(ctx),
@@ -828,6 +853,7 @@ func (e *kvElection) StopWithContext(ctx context.Context, opts StopOptions) erro
 		)
 		return fmt.Errorf("shutdown timeout exceeded: %v", timeout)
 	case <-ctx.Done():
+		<-e.lifecycle
 		log := e.getLogger()
 		log.Warn("shutdown_cancelled",
 			append(e.logWithContext(ctx),
@@ -840,6 +866,7 @@ func (e *kvElection) StopWithContext(ctx context.Context, opts StopOptions) erro
 	e.mu.Lock()
 	e.setContext(nil)
 	e.mu.Unlock()
+	<-e.lifecycle
 
 	log := e.getLogger()
 	log.Info("election_stopped",
